@@ -36,6 +36,16 @@ Proof. exact (parse_jws_compact_serialize o). Qed.
 Theorem c16_compact_jwe o : wf_jwe o -> je_prot o <> [] -> parse_jwe_compact (jwe_compact o) 1 = Ok o.
 Proof. exact (parse_jwe_compact_serialize o). Qed.
 
+(* JSON serializations: each field travels as the base64url text of a string member; decoding
+   the members (encoding/json itself is not modelled) returns the fields *)
+Theorem c16_json_members :
+  (forall o, wf_jws o ->
+     jws_of_b64 (b64url_encode (js_prot o)) (b64url_encode (js_payload o)) (b64url_encode (js_sig o)) = Ok o) /\
+  (forall o, wf_jwe o ->
+     jwe_of_b64 (b64url_encode (je_prot o)) (b64url_encode (je_key o)) (b64url_encode (je_iv o))
+                (b64url_encode (je_ct o)) (b64url_encode (je_tag o)) = Ok o).
+Proof. split; [exact jws_of_b64_enc|exact jwe_of_b64_enc]. Qed.
+
 (* only texts with exactly 3 / 5 dot-separated parts (after white space removal) are accepted *)
 Theorem c16_compact_part_count :
   (forall s j o, parse_jws_compact s j = Ok o -> length (split_dot (strip_ws s)) = 3%nat) /\
@@ -58,7 +68,8 @@ Theorem c16_signing_input_injective p l p' l' :
   signing_input p l = signing_input p' l' -> p = p' /\ l = l'.
 Proof. exact (signing_input_injective p l p' l'). Qed.
 
-(* different (protected, aad-or-absent) => different AAD b64(protected) ['.' b64(aad)] *)
+(* different (protected, aad) => different AAD b64(protected) ['.' b64(aad)]; aad is absent or
+   non-empty (zero-length authenticated data is treated as absent by the code, fix fe25c8a) *)
 Theorem c16_aad_injective p a p' a' :
   wf_bytes p -> wf_bytes p' -> wf_aad a -> wf_aad a' ->
   aad_input p a = aad_input p' a' -> p = p' /\ a = a'.
@@ -307,6 +318,7 @@ Print Assumptions c16_b64.
 Print Assumptions c16_b64_unpadded.
 Print Assumptions c16_compact_jws.
 Print Assumptions c16_compact_jwe.
+Print Assumptions c16_json_members.
 Print Assumptions c16_compact_part_count.
 Print Assumptions c16_verifier_signing_input.
 Print Assumptions c16_signing_input_injective.
